@@ -26,6 +26,20 @@ CLAIMS = {
              'get_itdma_comm_state and CommunicationStateMixin, against an independent ITU table (Spec/CommSpec.v). ' + TIE,
         note=BASE_NOTE + 'Spec/CommSpec.v is a hand transcription of ITU-R M.1371 Annex 2 3.3.7.2.2/3.3.7.3.2.',
         design='DESIGN.md section 7, C20'),
+    'C06': dict(
+        technique='Coq proof (splitlines as a byte automaton, induction over the recv() chunks) for all streams of '
+                  'terminated lines and all segmentations + differential check against SocketStream with a scripted recv',
+        text='Theorem C06 (forall ls cs, lines_ok ls -> chunking cs (concat ls) -> socket_read cs = ls) and the stronger '
+             'C06_any_stream (the lines read depend on the byte stream only, for EVERY stream and segmentation) are proved in '
+             'Coq about a Gallina model that follows SocketStream.read statement by statement over the literal model of '
+             'bytes.splitlines(keepends=True); no bound on lines, chunks or sizes. ' + TIE +
+             ' Partial with respect to real transports: kernels/sockets are represented by the sequence of recv() results; '
+             'the theorem covers every segmentation they can produce, the loopback TCP/UDP run of the thorough tier is '
+             'supporting evidence only.',
+        note=BASE_NOTE + 'bytes.splitlines modelled by hand in Prim/Splitlines.v (validated exhaustively against CPython on '
+             'all strings up to length 8 over {a, CR, LF}); preprocessors are not modelled; the line-filter literals are tied '
+             'to the source by theorem C06_literals_tied over the regenerated Gen/GenConst.v.',
+        design='DESIGN.md section 7, C06'),
 }
 
 PENDING = 'check not yet built in this snapshot (work in progress; see DESIGN.md section 12 for the status)'
